@@ -8,7 +8,7 @@ LEAN_MODULE = "HexProps.C01"
 SCOPE = []
 ORACLE_RULE = "C01: see hx/oracles/framework.py (c01_case): random indicator spec (26 kinds + Amorph wrappers) x stream style x timeframe/fill x schedule (appended chunks also as dicts / lists) on the real code; pattern / movement wrappers on dyadic candles with exact ties (hx/oracles/analysis.py: case_c16_wrapped), batch column vs live column"
 ASSUMPTIONS = ["TZ=UTC for this check"]
-PARTIAL = "proved for ALL 27 shipped indicator classes (CoveredTreeX: the 14 leaf classes incl. Amorph x 20 functions, and every composite - VWAP, STDEV, RSI, ATR, KC, STDEVTHRES, BBANDS, Supertrend, MACD, HMA, STOCH, TSI, ADX) with candle-attribute inputs: leaf classes on the base timeframe unconditionally (equality in PyM); all classes on the base or a collapsing timeframe with or without gap filling as 'the live run returns => the batch run returns the same candles' (C01_trees). and for indicator-valued inputs in the standard pattern: a dependent SMA/EMA/RMA/WMA/ROC member over a source member (SMA..ROC, MACD, KC, Supertrend, BBANDS, STOCH, TSI, ADX) of the same Hexital, chains of any length, any timeframe / fill (C01_chain_covered, C01_chain_any_length). Not proved (C01_FULL): dependent composites and sources without a component instance, members on different timeframes, period 1 for HMA/STOCH (index-0 fallback to a child's full calculate()), names that are not ordinary keys; those are covered by correspondence + search only Round 5: indicator-valued inputs for EVERY class that takes an input_value as a dependent (SMA, EMA, RMA, WMA, ROC, Counter, Amorph, STDEV, RSI, MACD, KC, BBANDS, STDEVTHRES, HMA, STOCH, TSI) over any of the 27 classes as a source on the same manager, chains of any length, any timeframe / fill (C01_pair_more, C01_chain_more, C01_chain_more_tf). Still open: members on different timeframes feeding each other, parameter corners (period 1 for HMA / STOCH, names that are not ordinary keys)"
+PARTIAL = "proved for ALL 27 shipped indicator classes (CoveredTreeX: the 14 leaf classes incl. Amorph x 20 functions, and every composite - VWAP, STDEV, RSI, ATR, KC, STDEVTHRES, BBANDS, Supertrend, MACD, HMA, STOCH, TSI, ADX) with candle-attribute inputs: leaf classes on the base timeframe unconditionally (equality in PyM); all classes on the base or a collapsing timeframe with or without gap filling as 'the live run returns => the batch run returns the same candles' (C01_trees). and for indicator-valued inputs in the standard pattern: a dependent SMA/EMA/RMA/WMA/ROC member over a source member (SMA..ROC, MACD, KC, Supertrend, BBANDS, STOCH, TSI, ADX) of the same Hexital, chains of any length, any timeframe / fill (C01_chain_covered, C01_chain_any_length). Not proved (C01_FULL): dependent composites and sources without a component instance, members on different timeframes, period 1 for HMA/STOCH (index-0 fallback to a child's full calculate()), names that are not ordinary keys; those are covered by correspondence + search only Round 5: indicator-valued inputs for EVERY class that takes an input_value as a dependent (SMA, EMA, RMA, WMA, ROC, Counter, Amorph, STDEV, RSI, MACD, KC, BBANDS, STDEVTHRES, HMA, STOCH, TSI) over any of the 27 classes as a source on the same manager, chains of any length, any timeframe / fill (C01_pair_more, C01_chain_more, C01_chain_more_tf). Still open: members on different timeframes feeding each other, parameter corners (period 1 for HMA / STOCH, names that are not ordinary keys). Round 8: HEIKIN-ASHI managers (alone, on a collapsing timeframe, with gap filling) for all 27 classes and for chains of any length, and the generic form over any manager spec (C01_trees_mgr, C01_trees_ha, C01_trees_haCfg, C01_chain_more_ha / _haCfg). Lifespan managers: not a theorem for C01 (a trimmed live run and a trimmed batch run legitimately keep different suffixes); covered by C15"
 
 
 def oracle(ctx):
